@@ -628,13 +628,20 @@ struct AlgoEngine : EngineBase {
 
   void run_algo(int algo, long idx) {
     begin_history(0, idx, 0xC15);
+#ifdef VF_HETERO_RELOC
+    // Optional engine (its own binary): relocation between DIFFERENT types. amc accepts it; the standard algorithms the property refers to do not
+    // define it, so a tree on which this binary does not compile is not judged by it (the driver then notes that the feature is not offered).
+    if (algo == A_URELOC || algo == A_URELOC_N) { int f = 4 + algo - A_URELOC; hetero_family<NTR, NTR_MO>(algo, f); hetero_family<TR, NTR>(algo, f); }
+    if (!g_cut) end_history_ok();
+    return;
+#endif
     switch (algo) {
       case A_CONSTRUCT_AT: construct_cells<int>(); construct_cells<TC4>(); construct_cells<TR>(); construct_cells<NTR>(); construct_cells<NTR_TM>(); construct_cells<NTR_NCTM>(); break;
       case A_DESTROY_AT: case A_DESTROY: case A_DESTROY_N: destroy_family<int>(algo); destroy_family<TC4>(algo); destroy_family<TR>(algo); destroy_family<NTR>(algo); break;
       case A_UCOPY: case A_UCOPY_N: { int f = algo - A_UCOPY; range_family<int>(algo, f); range_family<TC4>(algo, f); range_family<PMem>(algo, f); range_family<TR>(algo, f); range_family<NTR>(algo, f); range_family<NTR_TM>(algo, f); range_family<NTR_NCTM>(algo, f); hetero_family<NTR, NTR_MO>(algo, f); hetero_family<TR, NTR>(algo, f); break; }
       case A_UMOVE: case A_UMOVE_N: { int f = 2 + algo - A_UMOVE; range_family<int>(algo, f); range_family<TC4>(algo, f); range_family<TR>(algo, f); range_family<NTR>(algo, f); range_family<NTR_TM>(algo, f); range_family<NTR_NCTM>(algo, f); hetero_family<NTR, NTR_MO>(algo, f); hetero_family<TR, NTR>(algo, f); break; }
       case A_UDEFAULT: case A_UDEFAULT_N: case A_UVALUE: case A_UVALUE_N: { int f = algo - A_UDEFAULT; ctor_family<int>(algo, f); ctor_family<TC4>(algo, f); ctor_family<PMem>(algo, f); ctor_family<TR>(algo, f); ctor_family<NTR>(algo, f); break; }
-      case A_URELOC: case A_URELOC_N: { int f = 4 + algo - A_URELOC; range_family<int>(algo, f); range_family<TC4>(algo, f); range_family<TR>(algo, f); range_family<NTR>(algo, f); range_family<NTR_TM>(algo, f); range_family<NTR_NCTM>(algo, f); hetero_family<NTR, NTR_MO>(algo, f); hetero_family<TR, NTR>(algo, f); break; }
+      case A_URELOC: case A_URELOC_N: { int f = 4 + algo - A_URELOC; range_family<int>(algo, f); range_family<TC4>(algo, f); range_family<TR>(algo, f); range_family<NTR>(algo, f); range_family<NTR_TM>(algo, f); range_family<NTR_NCTM>(algo, f); break; }
       case A_RELOC_AT: relocate_at_cells<int>(); relocate_at_cells<TC4>(); relocate_at_cells<TR>(); relocate_at_cells<NTR>(); relocate_at_cells<NTR_TM>(); relocate_at_cells<NTR_NCTM>(); break;
       case A_OVERLAP: overlap_cells<int>(); overlap_cells<TC4>(); overlap_cells<TR>(); break;
       case A_DESTROY_AT_ARRAY: destroy_array_cells<int>(); destroy_array_cells<TR>(); destroy_array_cells<NTR>(); break;
